@@ -7,7 +7,7 @@ use mini_mcmc::gibbs::{GibbsMarkovChain, GibbsSampler};
 use serde_json::{json, Value};
 use std::sync::{Arc, Mutex};
 
-pub trait Tok: ndarray::LinalgScalar + Send + Sync + std::fmt::Debug {
+pub trait Tok: ndarray::LinalgScalar + PartialEq + Send + Sync + std::fmt::Debug {
     const NAME: &'static str;
     fn table() -> Vec<Self>;
     fn bits(&self) -> u64;
